@@ -472,7 +472,7 @@ def run(ctx):
     ctx.assumptions += ["one tick = 500 ms; fixed windows 2-4 s; concurrency slots expire after 2-4 s, collected every 1-2 s (passes awaited tick by tick)",
                         "sequential handling of overlapping transactions (concurrency is C18's subject)", "at most one concurrency quota per configuration",
                         "status-code filters only in configurations without answering processors (observation G4)"]
-    ncfg, nh, hl = (18, 8, 24) if not T else (int(os.environ.get("GW_NCFG", "100")), 24, 40)
+    ncfg, nh, hl = (18, 8, 24) if not T else (int(os.environ.get("GW_NCFG", "90")), 24, 40)
     # candidates: twice as many as needed (random graphs are often refused by the loader: C05's subject), loaded once without histories
     cands = [rand_config(ctx.rng, n) for n in range(2 * ncfg)]
     forced = sorted(FORCED) * (1 if not T else 4)
